@@ -147,23 +147,29 @@ pub fn run(case: &Value, ctx: &Ctx) -> Outcome {
         out.fail(format!("cliargs/panic/{tool}"), d());
         return out;
     }
+    // What the grammar and the input rule LOOK like (which combinations are refused, with which status) is as-built behaviour,
+    // not one of the listed properties: a tool that accepts more, or refuses more, is not alarmed about - it is recorded as a
+    // tag.  What every outcome must satisfy (C17): no panic (checked above), a non-zero exit comes with a diagnostic, and a
+    // refused command line writes nothing to stdout.
+    out.check(r.ok() || !r.stderr.trim().is_empty(), || format!("cliargs/silent-failure/{tool}"), d);
+    out.check(r.ok() || r.stdout.is_empty(), || format!("cliargs/output-despite-failure/{tool}"), d);
+    let as_model = match want {
+        "usage" => r.code == Some(2),
+        "run" => matches!(r.code, Some(0) | Some(1)),
+        "err_both" | "err_none" | "err_empty" => r.code == Some(1),
+        _ => false,
+    };
+    if !as_model {
+        out.tag(format!("differs-from-as-built-model:{want}"));
+    }
     match want {
-        "usage" => {
-            out.check(r.code == Some(2), || format!("cliargs/usage-error-expected/{tool}"), d);
-            out.check(r.stdout.is_empty(), || format!("cliargs/usage-error-with-output/{tool}"), d);
-            out.check(!r.stderr.trim().is_empty(), || format!("cliargs/usage-error-undiagnosed/{tool}"), d);
-        }
         "run" => {
-            out.check(matches!(r.code, Some(0) | Some(1)), || format!("cliargs/accepted-line-rejected/{tool}"), d);
-            out.check(r.ok() || !r.stderr.trim().is_empty(), || format!("cliargs/silent-failure/{tool}"), d);
-            if line.iter().all(|o| o["k"] == "opt" && o["name"] == "statistics") {
-                // nothing but the input (and what the tool requires): the run itself must succeed
+            if line.iter().all(|o| o["k"] == "opt" && o["name"] == "statistics") && with_path && (allow || stdin_kind == "tty") {
+                // a file is named, nothing else is asked, stdin is a terminal (or the test is off): the run itself must succeed
                 out.check(r.ok() && !r.stdout.is_empty(), || format!("cliargs/plain-run-failed/{tool}"), d);
             }
         }
-        "err_both" => out.check(r.code == Some(1) && r.stdout.is_empty() && !r.stderr.trim().is_empty(), || format!("cliargs/input-rule/both/{tool}"), d),
-        "err_none" => out.check(r.code == Some(1) && r.stdout.is_empty() && !r.stderr.trim().is_empty(), || format!("cliargs/input-rule/none/{tool}"), d),
-        "err_empty" => out.check(r.code == Some(1) && r.stdout.is_empty() && !r.stderr.trim().is_empty(), || format!("cliargs/input-rule/empty/{tool}"), d),
+        "usage" | "err_both" | "err_none" | "err_empty" => {}
         other => out.fail("cliargs/unknown-outcome", json!(other)),
     }
     out
